@@ -1,7 +1,7 @@
 // reflect: driver for C19 (pogs) and C20 (encoding/text).
 //
 //	C19 modes: values, messages, embed, prefilled, history
-//	C20 modes: values, strings, history, registry
+//	C20 modes: values, strings, history, registry, lists
 //
 // See NOTES.md.
 package main
@@ -29,6 +29,8 @@ func main() {
 			tr.runStrings(i, rng)
 		case "C20/history":
 			tr.runHistory(i, rng)
+		case "C20/lists":
+			tr.runLists(i, rng)
 		case "C19/values":
 			pr.runValues(i, rng)
 		case "C19/messages":
